@@ -22,7 +22,7 @@ type c05Case struct {
 	Decs    [6]int `json:"decs"`    // Start1, End1, ... (0 none, 1 line comment, 2 "\n", 3 block comment)
 }
 
-var c05Kinds = []string{"stmt", "decl", "spec", "field", "method", "clause", "arg", "elt", "rawarg", "rawelt", "rawstmt", "pathelt", "patharg"}
+var c05Kinds = []string{"stmt", "decl", "spec", "field", "method", "clause", "arg", "elt", "rawarg", "rawelt", "rawstmt", "pathelt", "patharg", "casebody", "commbody", "blocks"}
 
 func c05OwnLine(kind string) bool {
 	return kind != "arg" && kind != "elt" && !strings.HasPrefix(kind, "raw")
@@ -44,6 +44,33 @@ func c05Build(kind string) (file *dst.File, elems []dst.Node, open string, texts
 			list = append(list, s)
 			elems = append(elems, s)
 			texts = append(texts, n+"()")
+		}
+		file.Decls = []dst.Decl{fn(list...)}
+		return file, elems, "package p\n\nfunc f() {", texts, ";", "}\n"
+	case "casebody", "commbody", "blocks":
+		// statement lists whose elements include bare block statements: in a case clause, in a comm
+		// clause, in a function body
+		var list []dst.Stmt
+		for i, n := range names {
+			var s dst.Stmt = &dst.ExprStmt{X: &dst.CallExpr{Fun: id(n)}}
+			text := n + "()"
+			if i == 1 || kind == "blocks" {
+				s = &dst.BlockStmt{List: []dst.Stmt{s}}
+				text = "{ " + text + " }"
+			}
+			list = append(list, s)
+			elems = append(elems, s)
+			texts = append(texts, text)
+		}
+		switch kind {
+		case "casebody":
+			sw := &dst.SwitchStmt{Tag: id("x"), Body: &dst.BlockStmt{List: []dst.Stmt{&dst.CaseClause{List: []dst.Expr{&dst.BasicLit{Kind: token.INT, Value: "1"}}, Body: list}}}}
+			file.Decls = []dst.Decl{fn(sw)}
+			return file, elems, "package p\n\nfunc f() {\n\tswitch x {\n\tcase 1:", texts, ";", "}\n}\n"
+		case "commbody":
+			sel := &dst.SelectStmt{Body: &dst.BlockStmt{List: []dst.Stmt{&dst.CommClause{Comm: &dst.ExprStmt{X: &dst.UnaryExpr{Op: token.ARROW, X: id("ch")}}, Body: list}}}}
+			file.Decls = []dst.Decl{fn(sel)}
+			return file, elems, "package p\n\nfunc f() {\n\tselect {\n\tcase <-ch:", texts, ";", "}\n}\n"
 		}
 		file.Decls = []dst.Decl{fn(list...)}
 		return file, elems, "package p\n\nfunc f() {", texts, ";", "}\n"
@@ -228,7 +255,7 @@ func init() {
 	core.Register(&core.Prop{
 		ID:    "C05",
 		Level: "model_checking",
-		Rule: "13 list kinds (statements, declarations, specs, struct fields, interface methods, case clauses, call arguments, composite elements, and arguments / elements / statements ending in multi-line raw strings that contain empty lines, and arguments / elements that are package-qualified identifiers printed with import management) x all 3^6 None/NewLine/EmptyLine assignments to Before/After of 3 elements " +
+		Rule: "16 list kinds (statements, statement lists of case and comm clauses and of function bodies whose elements include bare block statements, declarations, specs, struct fields, interface methods, case clauses, call arguments, composite elements, and arguments / elements / statements ending in multi-line raw strings that contain empty lines, and arguments / elements that are package-qualified identifiers printed with import management) x all 3^6 None/NewLine/EmptyLine assignments to Before/After of 3 elements " +
 			"x every assignment of {none, line comment, newline, block comment} to the 6 Start/End points with <=2 (quick) / <=3 (thorough) non-empty, on hand-built trees; " +
 			"oracle: print == gofmt(text rendered by the non-additive line-break ledger) and, for own-line kinds without decorations, one blank line between neighbours iff After or Before is EmptyLine; " +
 			"state = (kind, spacing vector, decoration vector); non-trivial = any spacing/decoration set",
